@@ -13,7 +13,7 @@ import (
 func init() {
 	register(&propDef{
 		id: "C13", level: "other", perCfg: false,
-		explain: "Necessary structural conditions of C13, decided for all paths. M1 identity flow, positional and composed across functions: NewService parameter i is stored in a Service field written nowhere else; the GetInfo handler (the innermost Service method whose inlined view fills the reply struct - directly or through a reply-builder helper) stores exactly those fields, and a copy of the registration-order list taken under the mutex, into the members whose JSON keys are the output fields of GetInfo in the embedded org.varlink.service description (vendor, product, version, url, interfaces), in that order, and hands that struct to the reply path; the client helpers copy member k (same JSON key, decoded into a fresh zero value) to their k-th pointer parameter under a nil test; the Resolver helper likewise. M2 registration is guarded and complete: in RegisterInterface (inlined view: the tables may live in a state struct of the Service with methods of its own) every update of interfaces / descriptions / names carries `not already registered` and `running == false`, all use the key iface.VarlinkGetName(), the description stored is iface.VarlinkGetDescription(), names is appended at the end, refusing edges return errors without any update, and nothing else writes these fields after construction. M3: NewService registers the built-in interface (name org.varlink.service) on a fresh Service before returning it. M4: GetInterfaceDescription replies with the ok-result of descriptions[name] and with InvalidParameter(\"interface\") on the not-found and empty-name edges; the client sends key `interface` and reads key `description`, agreeing with the built-in handler's structs.",
+		explain: "Necessary structural conditions of C13, decided for all paths. M1 identity flow, positional and composed across functions: NewService parameter i is stored in a Service field written nowhere else; the GetInfo handler (the innermost Service method whose inlined view fills the reply struct - directly or through a reply-builder helper) stores exactly those fields, and a copy of the registration-order list taken under the mutex, into the members whose JSON keys are the output fields of GetInfo in the embedded org.varlink.service description (vendor, product, version, url, interfaces), in that order, and hands that struct to the reply path; the client helpers copy member k (same JSON key, decoded into a fresh zero value) to their k-th pointer parameter under a nil test; the Resolver helper likewise. M2 registration is guarded and complete: in RegisterInterface (inlined view: the tables may live in a state struct of the Service with methods of its own) every update of interfaces / descriptions / names carries `not already registered` and `running == false`, all use the key iface.VarlinkGetName(), the description stored is iface.VarlinkGetDescription(), names is appended at the end, refusing edges return errors without any update, and nothing else writes these fields after construction. M3: NewService registers the built-in interface (name org.varlink.service) on a fresh Service before returning it. M4: GetInterfaceDescription replies with the ok-result of descriptions[name] and with InvalidParameter(\"interface\") on the not-found and empty-name edges; the client sends key `interface` and reads key `description`, agreeing with the built-in handler's structs. M1 also: the client helpers write a reply member whenever the pointer parameter is non-nil (no further condition on the value).",
 		notDec:  "Unicode fidelity of the strings (delegated to encoding/json); what user code does with the values.",
 		trusted: []string{"encoding/json matches struct members by tag, then case-insensitively by name"},
 		run:     runC13,
